@@ -12,7 +12,7 @@ import audit_facts
 
 RULES = [
     (r"Grease::new/from_ratio", "fault_percentage <= 50 <= 100 is enforced by is_valid_config before any worker is spawned", ["fault_percentage_validated"]),
-    (r"(Responder|Server)::new/unwrap\(name\(current", "Server::new / Responder::new run only on worker threads, which main creates with thread::Builder::name(..)", ["worker_threads_named"]),
+    (r"(Responder|Server)::new/unwrap\(name\(", "Server::new / Responder::new run only on worker threads, which main creates with thread::Builder::name(..)", ["worker_threads_named"]),
     (r"Server::new/unwrap\(new\(\)\)", "Poll::new fails only on operating-system resource exhaustion, not as a function of the configuration", []),
     (r"Server::new/unwrap\(register\(", "Poll::register fails only on operating-system errors, not as a function of the configuration", []),
     (r"Server::new/unwrap\(parse\(", "`interface:port` was parsed successfully by is_valid_config (udp_socket_addr); the same interface with another u16 port parses too", ["interface_parse_validated"]),
@@ -39,7 +39,7 @@ RULES = [
     (r"Grease::randomly_order_tags/unwrap\(get", "indices come from index::sample(rng, n, n) with n = num_fields() of the same message, so each is < tags.len() == values.len()", ["index_sample_full_permutation", "rtmessage_parallel_vectors"]),
     (r"OnlineKey::(classic|rfc)_midp/(expect|unwrap)\(duration_since", "fails only if the system clock is before 1970-01-01, outside the property's quantifier (C11: clock from the epoch onwards)", ["epoch_constant"]),
     (r"OnlineKey::classic_midp/overflow", "seconds since the epoch * 10^6 overflows u64 only after year 584,000", ["epoch_constant"]),
-    (r"Responder::send_responses/unwrap\(name\(current", "a Responder lives inside a Server, which is !Send and was built by Server::new on this thread after unwrapping the same thread name", ["server_thread_named"]),
+    (r"Responder::send_responses/unwrap\(name\(", "a Responder lives inside a Server, which is !Send and was built by Server::new on this thread after unwrapping the same thread name", ["server_thread_named"]),
     (r"Server::compute_delay/duration-sub", "guarded by base.as_secs() >= 1 while the subtrahend is below 256 ms", ["compute_delay_guard"]),
     (r"Server::handle_health_check/unwrap\(arg1\.health_listener", "EVT_HEALTH_CHECK is registered only in the branch that stores Some(listener), and handle_health_check is only called for that token", ["health_token_only_when_listener"]),
     (r"Server::process_events/expect\(poll", "a failing poll() is an unrecoverable operating-system condition, not influenced by datagram contents", []),
